@@ -514,5 +514,54 @@ def dedup(q):
 
 
 def replay(ctx, payload):
-    print("replay of C11 cases: re-run the check with the recorded seed; the failing case is described in the replay file")
-    return True
+    from props.C03 import fix_schema
+    inp = payload["input"]
+    spec = G.LangSpec([(n, v, p) for n, v, p in inp["lang"]])
+    Q.LANGSPEC = spec
+    ops = spec.build()
+    opdecls = [(n, fix_schema(s)) for n, s in inp["opdecls"]]
+    listed = [tt(t) for t in inp["listed"]]
+    lang, operators = X.build_typed_language(spec, ops, opdecls, canon=listed, include_top=inp["top"])
+    canon = sorted(G.py_to_data(t, ops) for t in lang.canon)
+    texts = [inp["workflow"]] + ([inp["target"]] if inp.get("target") and inp["target"] != inp["workflow"] else [])
+    trees = []
+    workflows = {}
+    from rdflib import RDF
+    from transforge.graph import TransformationGraph
+    from transforge.namespace import TF
+    import wfgen as W
+    for i, text in enumerate(texts):
+        e = lang.parse(text)
+        e.fix()
+        g = TransformationGraph(lang)
+        wf = W.res(f"wf{i}")
+        n = g.add_expr(e, wf)
+        g.add((wf, RDF.type, TF.Transformation))
+        g.add((wf, TF.output, n))
+        workflows[wf] = (g, text)
+    ds = dataset(lang, workflows)
+    task = inp["task"]
+    task = {"steps": {int(k): {"types": [tw(t) for t in v["types"]], "ops": v["ops"], "from": v["from"]} for k, v in task["steps"].items()},
+            "outputs": task["outputs"], "inputs": task.get("inputs", [])}
+    c = type("C", (), {"failures": [], "stats": {}, "evaluations": 0, "distinct": set(), "constants": None, "rng": __import__("random").Random(0),
+        "count": lambda self, n, k=1: None, "case": lambda self, *a, **k: None,
+        "fail": lambda self, d, f, r: self.failures.append((d, f))})()
+    # force the recorded style
+    style = inp.get("style", "uri")
+    orig_choice = c.rng.choice
+    c.rng.choice = lambda seq: style if style in seq else orig_choice(seq)
+    one_case(c, 0, spec, ops, opdecls, lang, operators, canon, listed, inp["top"], workflows, ds, W.res("wf0"), texts[0], task, "replay", inp["flags"])
+    for d, f in c.failures:
+        print(d[:700], f)
+    print("oracle:", "holds" if not c.failures else "fails")
+    return not c.failures
+
+
+def tt(x):
+    return (x[0], tuple(tt(a) for a in x[1]))
+
+
+def tw(x):
+    if x[0] == 'w':
+        return ('w',)
+    return (x[0], tuple(tw(a) for a in x[1]))
